@@ -43,3 +43,34 @@ Proof.
   rewrite Hn, gen_class. destruct (is_data (ft s) (dmax s) (nthZ (s_fat s) i)); [reflexivity|].
   destruct (is_eoc (ft s) (nthZ (s_fat s) i)); reflexivity.
 Qed.
+
+(** * the allocator's scan against the decisions REGENERATED from [PyFat.allocate_bytes]: which cluster numbers are skipped (below the first
+    data cluster, above the last cluster of the volume or MAX_DATA_CLUSTER) and which entries are taken (free ones; the bad-cluster value and the
+    FAT12 special end mark as cluster NUMBERS are excluded by the source — they lie above MAX_DATA_CLUSTER, so the scan never gets there) *)
+Lemma gen_alloc_max s : Gen.alloc_max_clus (s_p s) (s_h s) (ft s) = Z.min (max_cluster s) (Gen.MAX_DATA_CLUSTER (ft s)).
+Proof. unfold Gen.alloc_max_clus. fold (Gen.chain_last_cluster (s_p s) (s_h s)). rewrite gen_last_cluster. apply Z.min_comm. Qed.
+Lemma gen_alloc_skip s i : Gen.alloc_skip (s_p s) (s_h s) (ft s) i = (i <? Gen.MIN_DATA_CLUSTER (ft s)) || (Z.min (max_cluster s) (Gen.MAX_DATA_CLUSTER (ft s)) <? i).
+Proof. unfold Gen.alloc_skip. fold (Gen.alloc_max_clus (s_p s) (s_h s) (ft s)). rewrite gen_alloc_max. lia. Qed.
+Lemma gen_alloc_take s v i : vt (ft s) -> Gen.alloc_skip (s_p s) (s_h s) (ft s) i = false ->
+  Gen.alloc_take (s_p s) (s_h s) (ft s) v i = (v =? Gen.FREE_CLUSTER (ft s)).
+Proof.
+  intros Hv Hs. rewrite gen_alloc_skip in Hs. unfold Gen.alloc_take. destruct (vt_bad _ Hv) as [_ Hb]. destruct (vt_consts _ Hv) as (_ & _ & _ & _ & H12).
+  assert (Hi : i <= Gen.MAX_DATA_CLUSTER (ft s)) by lia.
+  replace (i =? Gen.BAD_CLUSTER (ft s)) with false by lia.
+  destruct ((ft s =? Gen.FAT_TYPE_FAT12) && (i =? Gen.FAT12_SPECIAL_EOC)) eqn:E; [|destruct (v =? Gen.FREE_CLUSTER (ft s)); reflexivity].
+  exfalso. assert (ft s = 12) by (unfold Gen.FAT_TYPE_FAT12 in E; lia). specialize (H12 H). lia.
+Qed.
+(** one turn of the scan *)
+Theorem alloc_step_gen s f i need : vt (ft s) ->
+  alloc_scan (S f) (s_fat s) (ft s) (max_cluster s) i need =
+  if Gen.alloc_skip (s_p s) (s_h s) (ft s) i then alloc_scan f (s_fat s) (ft s) (max_cluster s) (i + 1) need else
+  match need with
+  | O => ([], i)
+  | S nd => if Gen.alloc_take (s_p s) (s_h s) (ft s) (nthZ (s_fat s) i) i
+            then (let '(l, j) := alloc_scan f (s_fat s) (ft s) (max_cluster s) (i + 1) nd in (i :: l, j))
+            else alloc_scan f (s_fat s) (ft s) (max_cluster s) (i + 1) need
+  end.
+Proof.
+  intros Hv. cbn [alloc_scan]. rewrite <- gen_alloc_skip. destruct (Gen.alloc_skip (s_p s) (s_h s) (ft s) i) eqn:E; [reflexivity|].
+  destruct need as [|nd]; [reflexivity|]. rewrite (gen_alloc_take s _ i Hv E). reflexivity.
+Qed.
